@@ -272,6 +272,8 @@ type caseData struct {
 	Stream []byte
 	Cuts   []int
 	Plan   *plan
+	// EOFWithData: the read that returns the client's last bytes also reports the end of the stream
+	EOFWithData bool
 }
 
 func genCase(t *rapid.T) caseData {
@@ -303,7 +305,7 @@ func genCase(t *rapid.T) caseData {
 		// the main chain reads everything after the tee point: so must the branch
 		g.p.Expect[id] = s[at:]
 	}
-	return caseData{Stream: s, Cuts: genCuts(t, len(s)), Plan: g.p}
+	return caseData{Stream: s, Cuts: genCuts(t, len(s)), Plan: g.p, EOFWithData: rapid.IntRange(0, 2).Draw(t, "eofWithData") == 0}
 }
 
 // ---------- running and judging ----------
@@ -314,7 +316,11 @@ func runCase(t hx.TB, cd caseData, class string) {
 		t.Fatalf("provision: %v", err)
 	}
 	h := rx.Compile(rl, 5*time.Second, true)
-	under := hx.NewScriptConn(hx.Split(cd.Stream, cd.Cuts), hx.EndEOF)
+	end := hx.EndEOF
+	if cd.EOFWithData {
+		end = hx.EndEOFWithData
+	}
+	under := hx.NewScriptConn(hx.Split(cd.Stream, cd.Cuts), end)
 	cx := layer4.WrapConnection(under, make([]byte, 0, layer4.VerifPrefetchChunkSize), zap.NewNop())
 	tr := rx.NewTrace()
 	rx.Bind(cx, tr)
